@@ -358,3 +358,87 @@ def zero_all_arguments(target):
             print('REPLAY: VIOLATION-CONFIRMED zero_all_arguments(f) is not f at zero')
             return
     print('REPLAY: not reproduced')
+
+
+def _degree_instances():
+    """class name -> list of (description, node, argument, line(t) -> argument value); the true degree is measured by finite differences"""
+    from nutils import evaluable as ev
+    c = ev.constant
+    u = ev.Argument('u', (c(3),), float)
+    u6 = ev.Argument('u6', (c(6),), float)
+    n = ev.Argument('n', (), int)
+    a3, b3 = numpy.array([.3, -1.2, .8]), numpy.array([1.1, .7, -.4])
+    a6, b6 = numpy.arange(6) * .3 - .5, numpy.array([1., -2., .5, .25, 3., -1.])
+    lu = lambda t: {'u': a3 + t * b3}
+    lu6 = lambda t: {'u6': a6 + t * b6}
+    ln = lambda t: {'n': numpy.array(int(t))}
+    sq = u * u
+    tab = c(numpy.array([1., 4., 10., 19., 33., 60., 99., 150.]))
+    i = ev.loop_index('i', c(3))
+    I = {}
+    I['Argument'] = [('u', u, u, lu)]
+    I['Multiply'] = [('u*u*u', sq * u, u, lu), ('u*u', sq, u, lu)]
+    I['Add'] = [('u*u + u', sq + u, u, lu), ('u + u*u*u', u + sq * u, u, lu)]
+    I['Power'] = [('u**3', ev.power(u, 3.), u, lu), ('(u*u)**2', ev.power(sq, 2.), u, lu), ('(u**2)**1.25', ev.power(ev.power(u, 2.), 1.25), u, lu), ('(u*u)**3', ev.power(sq, 3.), u, lu), ('u**-2', ev.power(u, -2.), u, lu), ('2**sum(u)', ev.power(2., ev.Sum(u)), u, lu)]
+    I['Take'] = [('(u*u)[[0,2]]', ev.Take(sq, c(numpy.array([0, 2]))), u, lu), ('table[n]', ev.Take(tab, n), n, ln)]
+    I['Inflate'] = [('inflate(u*u)', ev.Inflate(sq, c(numpy.array([0, 2, 4])), c(5)), u, lu), ('inflate(table[:3], [0,1,2]*n, 8)', ev.Inflate(c(numpy.array([1., 2., 3.])), c(numpy.array([0, 1, 2])) * n, c(8)), n, ln)]
+    I['Sum'] = [('sum(u*u)', ev.Sum(sq), u, lu)]
+    I['InsertAxis'] = [('insertaxis(u*u, 2)', ev.InsertAxis(sq, c(2)), u, lu)]
+    I['Transpose'] = [('transpose(insertaxis(u*u*u))', ev.Transpose(ev.InsertAxis(sq * u, c(2)), (1, 0)), u, lu)]
+    I['Diagonalize'] = [('diagonalize(u*u)', ev.Diagonalize(sq), u, lu)]
+    I['TakeDiag'] = [('takediag(diagonalize(u*u))', ev.TakeDiag(ev.Diagonalize(sq)), u, lu)]
+    I['Ravel'] = [('ravel(insertaxis(u*u, 2))', ev.Ravel(ev.InsertAxis(sq, c(2))), u, lu)]
+    I['Unravel'] = [('unravel(u6*u6, 2, 3)', ev.Unravel(u6 * u6, c(2), c(3)), u6, lu6)]
+    I['LoopSum'] = [('loop_sum(u*u*i)', ev.loop_sum(sq * ev.astype(i, float) if hasattr(ev, 'astype') else sq, i), u, lu)]
+    I['LoopConcatenate'] = [('loop_concatenate(u*u)', ev.loop_concatenate(sq, i), u, lu)]
+    idx = c(numpy.array([0, 2, 1]))
+    I['Monomial'] = [('Monomial(v, (u, u, u))', ev.Monomial(c(numpy.array([2., -1., .5])), (u, u, u), ((idx,), (idx,), (idx,)), (3, 2, 1)), u, lu),
+                     ('Monomial(u, (u,))', ev.Monomial(u, (u,), ((idx,),), (1,)), u, lu)]
+    return ev, I
+
+
+def argument_degree_rules(clsname):
+    """every announced degree must annihilate the finite differences of that order + 1 along a line in the argument"""
+    ev, I = _degree_instances()
+    names = ([clsname] if clsname in I else []) + [k for k in I if k != clsname]
+    for k in names:
+        for what, node, arg, line in I[k]:
+            try:
+                d = node.argument_degree(arg)
+            except ev.NotPolynomal:
+                continue
+            except Exception as e:
+                print('%s: argument_degree of %s raised %s: %s' % (k, what, type(e).__name__, e))
+                print('REPLAY: VIOLATION-CONFIRMED argument_degree raises %s' % type(e).__name__)
+                return
+            if not isinstance(d, int) or d < 0:
+                print('REPLAY: VIOLATION-CONFIRMED %s: argument_degree of %s is %r' % (k, what, d))
+                return
+            f = ev.compile(node)
+            with numpy.errstate(all='ignore'):
+                vals = numpy.array([numpy.asarray(f(line(t)), dtype=float) for t in range(d + 2)])
+            fd = numpy.diff(vals, n=d + 1, axis=0)
+            scale = max(1., abs(vals).max())
+            if not numpy.all(numpy.isfinite(fd)) or abs(fd).max() > 1e-7 * scale:
+                print('%s: %s announces degree %d in %r, but its difference of order %d along a line does not vanish (%.3g): the true degree is larger or it is not polynomial' % (k, what, d, arg.name, d + 1, abs(fd).max()))
+                print('REPLAY: VIOLATION-CONFIRMED argument_degree is not an upper bound of the true degree')
+                return
+    # the wrapper: a constant is of degree 0, a declined rule raises NotPolynomal
+    ev2, I2 = ev, I
+    u = I['Argument'][0][1]
+    if ev.constant(numpy.array([1., 2., 3.])).argument_degree(u) != 0:
+        print('REPLAY: VIOLATION-CONFIRMED a constant does not have degree 0')
+        return
+    try:
+        d = ev.Sin(u).argument_degree(u)
+        print('REPLAY: VIOLATION-CONFIRMED sin(u) announces degree %r instead of raising NotPolynomal' % (d,))
+        return
+    except ev.NotPolynomal:
+        pass
+    try:
+        if (u * u).argument_degree(u) != 2 or ev.Take(ev.constant(numpy.array([1., 2.])), ev.constant(1)).argument_degree(u) != 0:
+            raise AssertionError
+    except Exception as e:
+        print('REPLAY: VIOLATION-CONFIRMED the degree of u*u / of a constant is not delivered (%s)' % type(e).__name__)
+        return
+    print('REPLAY: not reproduced')
